@@ -57,21 +57,26 @@ func NewNotification(method string, params map[string]interface{}) *Notification
 	}
 
 	// Extract meta-field if present
+	metaTaken := false
 	if meta, ok := params["_meta"]; ok {
-		// Only a value that is taken over is removed from the params; a _meta of any other type
-		// stays among the additional fields and is encoded as it is.
+		// Only a value that is taken over is left out of the additional fields; a _meta of any
+		// other type stays among them and is encoded as it is. The caller's map is not modified:
+		// it may be used for the next notification.
 		switch metaMap := meta.(type) {
 		case map[string]interface{}:
 			notificationParams.Meta = metaMap
-			delete(params, "_meta")
+			metaTaken = true
 		case Meta:
 			notificationParams.Meta = metaMap
-			delete(params, "_meta")
+			metaTaken = true
 		}
 	}
 
 	// Add remaining fields to AdditionalFields
 	for k, v := range params {
+		if metaTaken && k == "_meta" {
+			continue
+		}
 		notificationParams.AdditionalFields[k] = v
 	}
 
